@@ -12,10 +12,10 @@ CONSTANTS
   WaitTimeouts = {0, 1000000}
   Dto = 2
   Waiters = {"w1"}
-  Depth = 6
-  MaxTicks = 2
-  MaxClears = 1
-  MaxWaits = 2
+  Depth = 5
+  MaxTicks = 1
+  MaxClears = 0
+  MaxWaits = 1
   MaxSetNames = 2
 INVARIANT Emit
 INVARIANT GenInv
